@@ -421,6 +421,10 @@ func checkC16() *checkDef {
 				{Pkg: "./proxy", Scenario: "proxy/relay", Params: map[string]any{"backend": "memory"}},
 				{Pkg: "./proxy", Scenario: "proxy/tunnel", Params: map[string]any{"backend": "memory", "depth": 2}},
 				{Pkg: "./cache", Scenario: "cache/keys", Params: map[string]any{"max_segs": 2}, Workers: 1},
+				// the dashboard API: every route x method x cookie kind, with and without a live session, and the
+				// login bodies / stored hashes: whatever the answer, there is one and nothing panics
+				{Pkg: "./webserver/api", Scenario: "api/routes", Params: map[string]any{}, Workers: 1},
+				{Pkg: "./webserver/api", Scenario: "api/login", Params: map[string]any{}, Workers: 1},
 			}
 		},
 	}
